@@ -109,6 +109,10 @@ func (log EventLog) Replay(pcrID PCRID, hashAlgo Algorithm, locality uint8) Dige
 		if ev.PCRIndex != pcrID || ev.HashAlgo != hashAlgo {
 			continue
 		}
+		if ev.Type == tpmeventlog.EV_NO_ACTION {
+			// EV_NO_ACTION events are informational, they are never extended.
+			continue
+		}
 		hasher.Write(result)
 		hasher.Write(ev.Digest)
 		result = hasher.Sum(result[:0])
